@@ -4,14 +4,15 @@
 package load
 
 import (
-	"path/filepath"
 	"fmt"
 	"go/ast"
 	"go/parser"
 	"go/token"
 	"go/types"
 	"os"
+	"path/filepath"
 	"sort"
+	"strconv"
 	"strings"
 	"time"
 
@@ -43,6 +44,11 @@ type Program struct {
 	SSAS     float64
 	CGS      float64
 }
+
+// overlayStd: standard packages an edit of the sources may start importing.
+var overlayStd = []string{"bufio", "bytes", "cmp", "context", "encoding/hex", "encoding/json", "errors", "fmt", "io", "io/fs",
+	"iter", "maps", "math", "os", "path", "path/filepath", "regexp", "slices", "sort", "strconv", "strings", "sync", "sync/atomic",
+	"time", "unicode", "unicode/utf8"}
 
 // Options for Load.
 type Options struct {
@@ -79,9 +85,23 @@ func Load(opt Options) (*Program, error) {
 	// With an overlay everything is type-checked from source: asking go list
 	// for export data would recompile every package that depends on the
 	// overlaid file, in every variant subprocess.
-	pkgs, err := packages.Load(cfg, "./...")
+	patterns := []string{"./..."}
+	if opt.Overlay != nil {
+		// an edited source may import a standard package that no repository
+		// package imported before: have the common ones at hand, in the same type universe
+		patterns = append(patterns, overlayStd...)
+	}
+	all, err := packages.Load(cfg, patterns...)
 	if err != nil {
 		return nil, fmt.Errorf("packages.Load: %w", err)
+	}
+	var pkgs, extra []*packages.Package
+	for _, p := range all {
+		if strings.HasPrefix(p.PkgPath, ModulePath) {
+			pkgs = append(pkgs, p)
+		} else {
+			extra = append(extra, p)
+		}
 	}
 	if len(pkgs) == 0 {
 		return nil, fmt.Errorf("no packages loaded from %s", opt.Dir)
@@ -105,7 +125,7 @@ func Load(opt Options) (*Program, error) {
 	}
 	sort.Slice(pkgs, func(i, j int) bool { return pkgs[i].PkgPath < pkgs[j].PkgPath })
 	if opt.Overlay != nil {
-		pkgs, err = recheck(pkgs, opt.Overlay)
+		pkgs, err = recheck(pkgs, extra, opt.Overlay)
 		if err != nil {
 			return nil, err
 		}
@@ -157,48 +177,20 @@ func Load(opt Options) (*Program, error) {
 // the overlay applied, re-using the dependencies' types of the base load. (Asking
 // go list for an overlaid build would recompile every dependent package in every
 // variant subprocess.)
-func recheck(pkgs []*packages.Package, overlay map[string][]byte) ([]*packages.Package, error) {
+func recheck(pkgs, extra []*packages.Package, overlay map[string][]byte) ([]*packages.Package, error) {
 	fset := pkgs[0].Fset
 	isRoot := map[*packages.Package]bool{}
 	for _, p := range pkgs {
 		isRoot[p] = true
 	}
-	// topological order over repository-internal imports
-	var order []*packages.Package
-	seen := map[*packages.Package]bool{}
-	var visit func(p *packages.Package)
-	visit = func(p *packages.Package) {
-		if seen[p] || !isRoot[p] {
-			return
-		}
-		seen[p] = true
-		var keys []string
-		for k := range p.Imports {
-			keys = append(keys, k)
-		}
-		sort.Strings(keys)
-		for _, k := range keys {
-			visit(p.Imports[k])
-		}
-		order = append(order, p)
-	}
+	// every package of the base load by import path: an edit may add an import
+	// the package did not have (a refactoring that starts using slices, strconv...)
+	byPath := map[string]*packages.Package{}
+	packages.Visit(append(append([]*packages.Package{}, pkgs...), extra...), nil, func(p *packages.Package) { byPath[p.PkgPath] = p })
+	// parse first: the import graph between the repository packages is the one of
+	// the edited sources, not of the base load
+	parsed := map[*packages.Package][]*ast.File{}
 	for _, p := range pkgs {
-		visit(p)
-	}
-	fresh := map[*packages.Package]*packages.Package{}
-	var out []*packages.Package
-	for _, p := range order {
-		np := &packages.Package{ID: p.ID, Name: p.Name, PkgPath: p.PkgPath, GoFiles: p.GoFiles,
-			CompiledGoFiles: p.CompiledGoFiles, Fset: fset, TypesSizes: p.TypesSizes, Module: p.Module,
-			Imports: map[string]*packages.Package{}}
-		for k, ip := range p.Imports {
-			if f, ok := fresh[ip]; ok {
-				np.Imports[k] = f
-			} else {
-				np.Imports[k] = ip
-			}
-		}
-		var files []*ast.File
 		names := append([]string{}, p.CompiledGoFiles...)
 		// files the overlay adds to this package's directory (a refactoring that moves code into a new file)
 		if len(p.CompiledGoFiles) > 0 {
@@ -216,6 +208,7 @@ func recheck(pkgs []*packages.Package, overlay map[string][]byte) ([]*packages.P
 			sort.Strings(extra)
 			names = append(names, extra...)
 		}
+		var files []*ast.File
 		for _, fn := range names {
 			var src any
 			if b, ok := overlay[fn]; ok {
@@ -230,6 +223,59 @@ func recheck(pkgs []*packages.Package, overlay map[string][]byte) ([]*packages.P
 			}
 			files = append(files, f)
 		}
+		parsed[p] = files
+	}
+	importsOf := func(p *packages.Package) []string {
+		set := map[string]bool{}
+		for _, f := range parsed[p] {
+			for _, im := range f.Imports {
+				if path, err := strconv.Unquote(im.Path.Value); err == nil {
+					set[path] = true
+				}
+			}
+		}
+		var keys []string
+		for k := range set {
+			keys = append(keys, k)
+		}
+		sort.Strings(keys)
+		return keys
+	}
+	// topological order over repository-internal imports
+	var order []*packages.Package
+	seen := map[*packages.Package]bool{}
+	var visit func(p *packages.Package)
+	visit = func(p *packages.Package) {
+		if p == nil || seen[p] || !isRoot[p] {
+			return
+		}
+		seen[p] = true
+		for _, k := range importsOf(p) {
+			visit(byPath[k])
+		}
+		order = append(order, p)
+	}
+	for _, p := range pkgs {
+		visit(p)
+	}
+	fresh := map[*packages.Package]*packages.Package{}
+	var out []*packages.Package
+	for _, p := range order {
+		np := &packages.Package{ID: p.ID, Name: p.Name, PkgPath: p.PkgPath, GoFiles: p.GoFiles,
+			CompiledGoFiles: p.CompiledGoFiles, Fset: fset, TypesSizes: p.TypesSizes, Module: p.Module,
+			Imports: map[string]*packages.Package{}}
+		for _, k := range importsOf(p) {
+			ip := byPath[k]
+			if ip == nil {
+				continue // unsafe, C, or a package the base program never loaded: reported by the type checker
+			}
+			if f, ok := fresh[ip]; ok {
+				np.Imports[k] = f
+			} else {
+				np.Imports[k] = ip
+			}
+		}
+		files := parsed[p]
 		info := &types.Info{
 			Types: map[ast.Expr]types.TypeAndValue{}, Defs: map[*ast.Ident]types.Object{}, Uses: map[*ast.Ident]types.Object{},
 			Implicits: map[ast.Node]types.Object{}, Instances: map[*ast.Ident]types.Instance{}, Scopes: map[ast.Node]*types.Scope{},
